@@ -252,6 +252,16 @@ def be(value, nbytes: int):
         return out
 
 
+def from_be(byte_values):
+    """integer whose big-endian bytes are the given (possibly symbolic) byte values"""
+    if not SYMBOLIC:
+        return int.from_bytes(bytes(byte_values), "big")
+    with NoTracing():
+        if not any(isinstance(b, SymbolicInt) for b in byte_values):
+            return int.from_bytes(bytes(int(b) for b in byte_values), "big")
+        return chmodels._structured([b.var if isinstance(b, SymbolicInt) else z3.IntVal(int(b)) for b in byte_values])
+
+
 # -------------------------------------------------------------------- constraints
 def assume(cond):
     """non-forking assumption"""
